@@ -93,6 +93,7 @@ def step (s : St) : Op → St × Out
     match s.graph with
     | none => (s, .err "ValueError:compressed")                      -- refused before anything is touched
     | some g =>
+      -- row numbers outside 0..n-1 are refused before anything is touched as well
       if replaced.any (fun i => i ≥ s.logical.length) then (s, .err "ValueError:index-range") else
       -- data preparation: caller order is restored iff `_vertex_order` exists
       let restored := match s.vo with
@@ -121,19 +122,28 @@ def run (s : St) (ops : List Op) : St × List Out :=
 
 /-! ## the invariant -/
 
-/-- every stored tag is current: `raw` is the logical dataset in vertex order (or caller order when
+/-- every stored tag is current: the identity of logical point `i` is `i` (the neighbour filter of
+`update` looks tags up by row number), `raw` is the logical dataset in vertex order (or caller order when
 never prepared), the graph has one row per logical point, owned by the current version of that point,
-and mentions only current versions; the compiled closure, when present, was built over the current rows -/
+and mentions only current versions; a compressed index has no graph and vice versa; the compiled
+closure exists iff `_vertex_order` exists and, when present, was built over the current rows.
+
+Two conjuncts were added to make the predicate *inductive* — `p.id == i` and `vo.isSome` / `vo.isNone`
+(closure exists iff `_vertex_order` exists): without either there are unreachable states that satisfy
+the rest and are driven out of it by one operation (`Props/C04.lean`, last section).
+`!s.compressed` (a compressed index has no graph) is what lets the specification of the logical
+dataset (`spec`, `Proofs/Index.lean`) know that every `update` after a `compress` is refused. -/
 def Inv (s : St) : Bool :=
+  (s.logical.zipIdx).all (fun (p, i) => p.id == i) &&
   (match s.vo with
    | some v => isPerm v s.logical.length && s.raw == permute s.logical v
    | none => s.raw == s.logical) &&
   (match s.graph with
-   | some g => g.length == s.logical.length &&
+   | some g => !s.compressed && g.length == s.logical.length &&
        (g.zip s.logical).all (fun (row, p) => row.owner == p && row.nbrs.all (fun q => s.logical.contains q))
    | none => s.compressed) &&
   (match s.searchRows with
-   | some r => r == s.raw
-   | none => true)
+   | some r => r == s.raw && s.vo.isSome
+   | none => s.vo.isNone)
 
 end Pynn.Idx
